@@ -122,6 +122,7 @@ type Inst struct {
 	Sym      map[string]string
 	Backends map[string]*envx.Backend
 	Users    map[string]string // ntlm / local users (name -> password)
+	lastMintCookies string     // Cookie header of the browser that did the latest /connect login (scripts run one at a time per instance)
 	krbDir   string
 }
 
@@ -716,5 +717,13 @@ func (i *Inst) MintAs(sub, loginName, hostParam, localIP, xff string) (tok strin
 		return "", nil, l.AccessToken, fmt.Errorf("connect flow ended with %d after %d hops: %s", last.Status, len(hops), strings.TrimSpace(last.Body))
 	}
 	file, _ = ParseRDP(last.Body)
+	// remember the browser's cookies: some clients carry them along when they open the tunnel
+	if u, e := url.Parse(i.BaseURL()); e == nil {
+		parts := []string{}
+		for _, c := range b.C.Jar.Cookies(u) {
+			parts = append(parts, c.Name+"="+c.Value)
+		}
+		i.lastMintCookies = strings.Join(parts, "; ")
+	}
 	return file["gatewayaccesstoken"], file, l.AccessToken, nil
 }
